@@ -1,13 +1,88 @@
-(** C18 (stage A): the lifter is checked dynamically on the supported subset;
-    the storage it appends to is the one proved in C19. *)
-From RV Require Import Model.Base Model.Storage Proofs.StorageFacts.
+(** C18 - lifting preserves module structure on the supported subset.
+    Statements only; proofs are [exact] of lemmas of Proofs/LiftFacts.v,
+    Inst/C18_inst.v.  [lift_D] are the ~760 lift arms translated from
+    lift/autogen_context.rs on this run; Model/Lift.v interprets them inside a
+    hand-written model of LiftContext::convert, which is run against the real
+    lifter on every check.  [in_subset] is the (boolean) subset: declared-
+    before-use types, 32-bit constants and composites, functions whose blocks
+    hold result-producing instructions, phis and non-switch terminators - and
+    a little more.  No bound on module size. *)
+From RV Require Import Model.Base Model.Storage Model.Module Model.Inst Model.Parser Model.Lift.
+From RV Require Import Proofs.StorageFacts Proofs.LiftFacts Inst.C18_inst.
+From RV Require Import Gen.LiftData.
 
-(** tokens of lifted types / constants / ops are dense insertion indices:
-    the k-th declaration gets token k (instance of C19 used by C18) *)
+(** tokens of lifted types / constants / ops are dense insertion indices (C19) *)
 Theorem C18_tokens_are_declaration_indices :
   forall (T : Type) (eqb : T -> T -> bool) (ops : list (op T)) (n : nat) (x : T),
     nth_error (appended T eqb [] ops) n = Some x ->
     get (fst (run eqb [] ops)) (N.of_nat n) = Some x.
 Proof. exact nth_appended_index. Qed.
 
+Theorem C18_lift_arms_translated : lift_translation_failures = [] /\ ld_wf lift_D = true.
+Proof. exact (conj lift_arms_translated_completely lift_data_wellformed). Qed.
+
+(** on the subset lifting succeeds - no error, no panic - with exactly the specified result *)
+Theorem C18_lift_succeeds_with_specified_result :
+  forall h m, in_subset lift_D m = true -> lift_module lift_D (Some h) m = LOk (spec_module lift_D h m).
+Proof. exact (lift_spec lift_D). Qed.
+
+(** version word, capabilities in order, memory model *)
+Theorem C18_version_capabilities_memory_model :
+  forall h m r, in_subset lift_D m = true -> lift_module lift_D (Some h) m = LOk r ->
+  sr_version r = h_version h /\
+  sr_caps r = map first_word (m_caps inst m) /\
+  (forall i, In i (m_caps inst m) -> i_opcode i = op_Capability /\
+             exists o rest, i_ops i = o :: rest /\ operand_kind lift_D o = "Capability"%string
+                            /\ first_word i = operand_word o) /\
+  exists mmi o0 o1 rest, m_memory_model inst m = Some mmi /\ i_ops mmi = o0 :: o1 :: rest /\
+    operand_kind lift_D o0 = "AddressingModel"%string /\ operand_kind lift_D o1 = "MemoryModel"%string /\
+    sr_mm r = (operand_word o0, operand_word o1).
+Proof. exact (L2_preserved lift_D). Qed.
+
+(** one type per type declaration, one constant per constant declaration, one
+    operation per result-producing non-phi block instruction, in declaration order *)
+Theorem C18_one_per_declaration_in_order :
+  forall h m r, in_subset lift_D m = true -> lift_module lift_D (Some h) m = LOk r ->
+  sr_types r = map (type_node lift_D (genv lift_D m)) (TD lift_D m) /\
+  sr_constants r = map (pconst lift_D (genv lift_D m) (TD lift_D m)) (CD lift_D m) /\
+  sr_ops r = flat_map (fun f => flat_map (fun b => map (op_node lift_D (fenv lift_D m f)) (filter is_op_inst (b_insts inst b)))
+                                         (f_blocks inst f)) (m_functions inst m) /\
+  length (sr_types r) = length (TD lift_D m) /\ length (sr_constants r) = length (CD lift_D m) /\
+  length (sr_ops r) = length (module_op_insts m).
+Proof. exact (L3_one_per_declaration lift_D). Qed.
+
+(** every operand carried over positionally: the node has exactly the arm's
+    fields, the j-th field is read at the j-th operand *)
+Theorem C18_operands_positional :
+  forall E i a, find_arm (ld_ops lift_D) (i_opcode i) = Some a ->
+  ln_variant (op_node lift_D E i) = la_variant a /\
+  map fst (ln_fields (op_node lift_D E i)) = map lf_name (la_fields a) /\
+  forall j f, nth_error (la_fields a) j = Some f ->
+    nth_error (ln_fields (op_node lift_D E i)) j = Some (lf_name f, fst (pfield E f (skipn j (i_ops i)))).
+Proof. exact (fun E i a => L34_op_fields lift_D E i a lift_data_wellformed). Qed.
+
+(** a type id is replaced by the token (declaration index) of the referenced entry *)
+Theorem C18_type_ids_become_declaration_tokens :
+  forall m k d, in_subset lift_D m = true -> nth_error (TD lift_D m) k = Some d ->
+  i_rid d = Some (rid d) /\
+  forall E o, le_type E = le_type (genv lift_D m) -> operand_word o = rid d ->
+    pconv E LTypeTok o = VTypeTok (tok_of_len k).
+Proof. exact (L4_type_token lift_D). Qed.
+
+(** functions keep control mask, result type, block count, terminators; phis give block arguments *)
+Theorem C18_functions :
+  forall h m r, in_subset lift_D m = true -> lift_module lift_D (Some h) m = LOk r ->
+  sr_functions r = map (spec_function lift_D m) (m_functions inst m) /\
+  length (sr_functions r) = length (m_functions inst m).
+Proof.
+  exact (fun h m r H1 H2 => match L5_functions lift_D h m r H1 H2 with conj a (conj b _) => conj a b end).
+Qed.
+
 Print Assumptions C18_tokens_are_declaration_indices.
+Print Assumptions C18_lift_arms_translated.
+Print Assumptions C18_lift_succeeds_with_specified_result.
+Print Assumptions C18_version_capabilities_memory_model.
+Print Assumptions C18_one_per_declaration_in_order.
+Print Assumptions C18_operands_positional.
+Print Assumptions C18_type_ids_become_declaration_tokens.
+Print Assumptions C18_functions.
